@@ -18,11 +18,24 @@ Open Scope Z_scope.
 Definition row := (string * string * string * string)%type.
 Definition kind_of (r : row) : string := match r with (k, _, _, _) => k end.
 
+(* the type of an "expression : type" row *)
+Fixpoint after_colon (fuel : nat) (d : string) : string :=
+  match fuel with
+  | O => d
+  | S f =>
+      if String.prefix " : " d then String.substring 3 (String.length d - 3) d
+      else match d with
+           | String _ r => after_colon f r
+           | EmptyString => EmptyString
+           end
+  end.
+Definition map_type (d : string) : string := after_colon (String.length d) d.
+
 Definition classified (r : row) : bool :=
   match r with
   | (k, p, f, e) =>
       negb (String.eqb k "maprange") ||
-      existsb (fun c => match c with (p', f', _, _) => String.eqb p p' && String.eqb f f' end)
+      existsb (fun c => match c with (p', t', _, _) => String.eqb p p' && String.eqb (map_type e) t' end)
               MapRanges.map_range_classes
   end.
 
@@ -46,16 +59,16 @@ Proof. vm_compute. reflexivity. Qed.
 
 Lemma every_map_range_classified : forall p f e,
   In ("maprange"%string, p, f, e) Inventory.inventory ->
-  exists e' c, In (p, f, e', c) MapRanges.map_range_classes.
+  exists w c, In (p, map_type e, w, c) MapRanges.map_range_classes.
 Proof.
   intros p f e H.
   pose proof inventory_deterministic_ok as I. unfold inventory_deterministic in I.
   apply andb_prop in I as [I _]. rewrite forallb_forall in I. specialize (I _ H).
   unfold classified in I. cbn [String.eqb negb orb] in I.
   change (String.eqb "maprange" "maprange") with true in I. cbn [negb orb] in I.
-  apply existsb_exists in I as [[[[p' f'] e'] c] [Hin Hc]].
-  apply andb_prop in Hc as [Hp Hf].
-  apply String.eqb_eq in Hp, Hf. subst. exists e', c. exact Hin.
+  apply existsb_exists in I as [[[[p' t'] w] c] [Hin Hc]].
+  apply andb_prop in Hc as [Hp Ht].
+  apply String.eqb_eq in Hp, Ht. subst. exists w, c. exact Hin.
 Qed.
 
 Lemma no_goroutines_clock_random : forall r, In r Inventory.inventory ->
